@@ -118,7 +118,9 @@ func (w *world) setPrice(ctx sdk.Context, d int, p sdk.Dec) {
 
 // the hard params' entry for denom d (what governance last decided), if any
 func (s *seqT) paramsMarket(d int) (hardtypes.MoneyMarket, bool) {
-	for _, mm := range s.w.tApp.GetHardKeeper().GetParams(s.ctx).MoneyMarkets {
+	var stored hardtypes.Params
+	kapp.ReadParams(s.w.tApp, s.ctx, "hard", &stored)
+	for _, mm := range stored.MoneyMarkets {
 		if mm.Denom == denoms[d] {
 			return mm, true
 		}
